@@ -642,6 +642,15 @@ def oracle_c10(cfg, rs, s):
     tot = float(np.sum(cfg.x0))
     sums = X.sum(axis=1)
     if not np.all(sums == tot):
+        # a path that left the domain of the rate expressions (possible only where the user declared no lower limit:
+        # a state below zero makes a rate negative or undefined) is not judged
+        try:
+            ref_path(rs, cfg.x0, cfg.t0, cfg.T, cfg.mode[0] == "exact", s.log, pre_tau=cfg.pre_tau())
+        except Mismatch as m:
+            if m.what == "harness-negative-rate":
+                raise Skip("out-of-domain")
+        except Skip:
+            pass
         k = int(np.argmax(sums != tot))
         return Mismatch("population-not-conserved", index=k, row=X[k].tolist(), total=tot)
     return None
